@@ -39,7 +39,7 @@ from harness.lib import coqbuild, gcs3, gcsim
 from harness.lib.coqio import Nat, to_coq
 
 LEVEL = "proof"
-THEOREMS = ["C05_norm_agree", "C05_gc_safe", "C05_gc_live", "C05_no_abort", "C05_history", "C05_append_commits"]
+THEOREMS = ["C05_norm_agree", "C05_gc_safe", "C05_gc_live", "C05_no_abort", "C05_history", "C05_append_commits", "C05_alias_never_committed"]
 REQ = gcsim.REQ + ["DS.Model.GCHist"]
 TIMEOUT_MS = 24 * 3600 * 1000
 
